@@ -2,7 +2,7 @@
 // line protocol (model side: lean/Driver/C13.lean).
 //
 // A case starts with one configuration line
-//     cfg dary  <arity 1..8> <rev 0|1>
+//     cfg dary  <arity 1..8> <rev 0|1> [u32|mk|str]   (key type: integer, move-sensitive struct, std::string)
 //     cfg addr  <arity 1..8> <rev 0|1> <u32|u8>
 //     cfg radix <radix 2|4|8|16|64> <i8|u8|i16|u32|i64|u64>
 // followed by operation lines.  Keys of the d-ary heaps are 0..U-1 (U = 48); their order is an
@@ -16,7 +16,9 @@
 // addressable:     additionally  remove k | contains k | upd k p (prio[k]=p; update(k))
 // Answer = "<ret> ; h=<heap_ array>" (+ " ; hd=<handles_ array, x = not_present>").
 //
-// radix heap ops:  push k | emplace k | top | pop | swap | peak | size | empty | clear | getb k
+// radix heap ops:  push k | emplace k | pushb k | emplaceb k (hint overloads push_to_bucket / emplace_in_bucket
+//                  with idx = get_bucket / get_bucket_key) | top | pop | swap | peak | size | empty | clear | getb k | drain
+//                  (the data payload is a move-sensitive struct)
 // Answer = "<ret> ; n=<size_> lim=<insertion_limit_ (rank)> cur=<current_bucket_> ;
 //           b=<idx>:<key>/<payload>,..|.. ; m=<idx>:<mins_ rank>,.. ; f=<set bits of filled_>"
 // The payload of the i-th inserted element of a case is i.
@@ -63,13 +65,84 @@ static constexpr unsigned U = 48;
 static long long g_prio[U];
 static bool g_rev = false;
 
+// errors of the move-sensitive key / payload types (drained by the oracle after every operation)
+static std::vector<std::string> g_move_errors;
+
+// A key whose moves are observable: the moved-from object is marked and poisoned; reading it (copy, move,
+// compare) is an error.  A container that forgets to write a moved-out key back leaves such an object behind.
+struct MKey {
+    std::uint32_t k;
+    bool live;
+    MKey() : k(0), live(true) {}
+    MKey(std::uint32_t v) : k(v), live(true) {}   // NOLINT: implicit on purpose
+    // a copy / move of a moved-from object is flagged and stays dead
+    MKey(const MKey& o) : k(o.rd("copy of")), live(o.live) {}
+    MKey(MKey&& o) noexcept : k(o.rd("move of")), live(o.live) { o.k = 0xDEADu; o.live = false; }
+    MKey& operator=(const MKey& o) { if (this != &o) { k = o.rd("copy-assignment from"); live = o.live; } return *this; }
+    MKey& operator=(MKey&& o) noexcept {
+        if (this != &o) { k = o.rd("move-assignment from"); live = o.live; o.k = 0xDEADu; o.live = false; }
+        return *this;
+    }
+    std::uint32_t rd(const char* what) const {
+        if (!live && g_move_errors.size() < 4) g_move_errors.push_back(std::string(what) + " a moved-from key");
+        return k;
+    }
+};
+
+// key <-> small integer id (0..U-1); id() = -1 for a moved-from / corrupted key
+template <typename K> struct KeyTr;
+template <> struct KeyTr<std::uint32_t> {
+    static std::uint32_t make(unsigned k) { return k; }
+    static long long id(const std::uint32_t& k) { return k; }
+};
+template <> struct KeyTr<std::uint8_t> {
+    static std::uint8_t make(unsigned k) { return static_cast<std::uint8_t>(k); }
+    static long long id(const std::uint8_t& k) { return k; }
+};
+template <> struct KeyTr<MKey> {
+    static MKey make(unsigned k) { return MKey(k); }
+    static long long id(const MKey& k) { return k.live ? static_cast<long long>(k.k) : -1; }
+};
+template <> struct KeyTr<std::string> {
+    // longer than the small-string buffer: a moved-from key is observably empty
+    static std::string make(unsigned k) { return "heap-key-number-" + std::to_string(1000 + k); }
+    static long long id(const std::string& s) {
+        if (s.size() != 20 || s.compare(0, 16, "heap-key-number-") != 0) return -1;
+        long long v = std::atoll(s.c_str() + 16) - 1000;
+        return (v >= 0 && v < static_cast<long long>(48)) ? v : -1;
+    }
+};
+
 template <typename K>
 struct PrioCmp {
     bool operator()(const K& a, const K& b) const {
-        return g_rev ? g_prio[a] > g_prio[b] : g_prio[a] < g_prio[b];
+        long long ia = KeyTr<K>::id(a), ib = KeyTr<K>::id(b);
+        if (ia < 0 || ib < 0 || ia >= static_cast<long long>(U) || ib >= static_cast<long long>(U)) {
+            g_move_errors.push_back("comparison of a moved-from key"); return false;
+        }
+        return g_rev ? g_prio[ia] > g_prio[ib] : g_prio[ia] < g_prio[ib];
     }
 };
-static bool plt(unsigned a, unsigned b) { return PrioCmp<unsigned>()(a, b); }
+static bool plt(unsigned a, unsigned b) { return g_rev ? g_prio[a] > g_prio[b] : g_prio[a] < g_prio[b]; }
+
+template <typename V>
+static std::string show_keys(const V& v) {
+    std::ostringstream os;
+    bool first = true;
+    for (const auto& x : v) {
+        if (!first) os << ',';
+        long long id = KeyTr<typename V::value_type>::id(x);
+        if (id < 0) os << '!'; else os << id;
+        first = false;
+    }
+    if (first) os << '-';
+    return os.str();
+}
+
+static void drain_move_errors(const std::string& what, const std::string& line) {
+    for (auto& e : g_move_errors) vh::viol(what + " " + e + " after " + line);
+    g_move_errors.clear();
+}
 
 struct IHeap {
     virtual ~IHeap() {}
@@ -102,25 +175,31 @@ static std::string show_vec(const V& v) {
 }
 
 // ------------------------------------------------------------------ DAryHeap
-template <unsigned Arity>
+template <typename K, unsigned Arity>
 struct DaryH : IHeap {
-    using H = tlx::DAryHeap<std::uint32_t, Arity, PrioCmp<std::uint32_t>>;
+    using H = tlx::DAryHeap<K, Arity, PrioCmp<K>>;
+    using T = KeyTr<K>;
     H h;
     std::multiset<unsigned> ref;
 
-    std::string dump() { return "h=" + show_vec(h.heap_); }
+    std::string dump() { return "h=" + show_keys(h.heap_); }
 
     void check(const std::string& line) {
+        drain_move_errors("dary", line);
         if (h.size() != ref.size()) { vh::viol("dary size " + std::to_string(h.size()) + " != reference " + std::to_string(ref.size()) + " after " + line); return; }
         if (h.empty() != ref.empty()) vh::viol("dary empty() wrong after " + line);
-        std::multiset<unsigned> got(h.heap_.begin(), h.heap_.end());
+        std::multiset<unsigned> got;
+        bool moved = false;
+        for (const K& x : h.heap_) { long long id = T::id(x); if (id < 0) moved = true; else got.insert(static_cast<unsigned>(id)); }
+        if (moved) { vh::viol("dary stores a moved-from key after " + line); return; }
         if (got != ref) vh::viol("dary stored multiset differs from reference after " + line);
         if (!ref.empty()) {
-            unsigned tp = h.top();
+            long long tp = T::id(h.top());
             for (unsigned e : ref)
-                if (plt(e, tp)) { vh::viol("dary top " + std::to_string(tp) + " is greater than stored " + std::to_string(e) + " after " + line); break; }
+                if (tp >= 0 && plt(e, static_cast<unsigned>(tp))) { vh::viol("dary top " + std::to_string(tp) + " is greater than stored " + std::to_string(e) + " after " + line); break; }
         }
         if (!h.sanity_check()) vh::viol("dary sanity_check() false after " + line);
+        drain_move_errors("dary", line);
     }
 
     void op(const std::vector<std::string>& t, const std::string& line) override {
@@ -129,18 +208,20 @@ struct DaryH : IHeap {
         if (o == "push" && t.size() == 2) {
             long long k = std::stoll(t[1]);
             if (k < 0 || k >= static_cast<long long>(U)) { vh::answer("bad-op"); return; }
-            if (k % 2) h.push(static_cast<std::uint32_t>(k)); else { std::uint32_t kk = static_cast<std::uint32_t>(k); h.push(kk); }
+            if (k % 2) h.push(T::make(static_cast<unsigned>(k))); else { K kk = T::make(static_cast<unsigned>(k)); h.push(kk); }
             ref.insert(static_cast<unsigned>(k));
         }
         else if (o == "pop" || o == "xtop" || o == "top") {
             if (ref.empty()) { vh::answer("bad-op"); return; }
-            unsigned tp = h.top();
-            ret = std::to_string(tp);
+            long long tpi = T::id(h.top());
+            ret = tpi < 0 ? std::string("!") : std::to_string(tpi);
+            unsigned tp = static_cast<unsigned>(tpi < 0 ? 0 : tpi);
             if (o != "top") {
-                if (o == "xtop") { unsigned x = h.extract_top(); if (x != tp) vh::viol("dary extract_top != top after " + line); }
+                if (o == "xtop") { K x = h.extract_top(); if (T::id(x) != tpi) vh::viol("dary extract_top != top after " + line); }
                 else h.pop();
                 auto it = ref.find(tp);
-                if (it == ref.end()) vh::viol("dary popped " + std::to_string(tp) + " which is not in the reference after " + line);
+                if (tpi < 0) vh::viol("dary top is a moved-from key after " + line);
+                else if (it == ref.end()) vh::viol("dary popped " + std::to_string(tp) + " which is not in the reference after " + line);
                 else {
                     for (unsigned e : ref) if (plt(e, tp)) { vh::viol("dary popped " + std::to_string(tp) + " but smaller " + std::to_string(e) + " stored after " + line); break; }
                     ref.erase(it);
@@ -152,24 +233,30 @@ struct DaryH : IHeap {
         else if (o == "clear") { h.clear(); ref.clear(); }
         else if (o == "sanity") ret = h.sanity_check() ? "1" : "0";
         else if (o == "drain") {
-            std::vector<unsigned> out;
+            std::vector<long long> out;
             std::multiset<unsigned> before = ref;
-            while (!h.empty() && out.size() <= before.size()) out.push_back(h.extract_top());
-            for (size_t i = 1; i < out.size(); ++i)
-                if (plt(out[i], out[i - 1])) { vh::viol("dary drain not in non-decreasing order after " + line); break; }
-            if (std::multiset<unsigned>(out.begin(), out.end()) != before) vh::viol("dary drain is not the stored multiset after " + line);
+            while (!h.empty() && out.size() <= before.size()) { K x = h.extract_top(); out.push_back(T::id(x)); }
+            bool bad = false;
+            std::multiset<unsigned> got;
+            for (long long x : out) { if (x < 0) bad = true; else got.insert(static_cast<unsigned>(x)); }
+            for (size_t i = 1; i < out.size() && !bad; ++i)
+                if (plt(static_cast<unsigned>(out[i]), static_cast<unsigned>(out[i - 1]))) { vh::viol("dary drain not in non-decreasing order after " + line); break; }
+            if (bad || got != before) vh::viol("dary drain is not the stored multiset after " + line);
             ref.clear();
-            ret = show_vec(out);
+            std::ostringstream os;
+            for (size_t i = 0; i < out.size(); ++i) { if (i) os << ','; if (out[i] < 0) os << '!'; else os << out[i]; }
+            ret = out.empty() ? "-" : os.str();
         }
         else if (o == "build" && t.size() == 3) {
             std::vector<long long> ks = vh::csv(t[2]);
-            std::vector<std::uint32_t> v;
-            for (long long k : ks) { if (k < 0 || k >= static_cast<long long>(U)) { vh::answer("bad-op"); return; } v.push_back(static_cast<std::uint32_t>(k)); }
+            std::vector<K> v;
+            std::multiset<unsigned> nr;
+            for (long long k : ks) { if (k < 0 || k >= static_cast<long long>(U)) { vh::answer("bad-op"); return; } v.push_back(T::make(static_cast<unsigned>(k))); nr.insert(static_cast<unsigned>(k)); }
             if (t[1] == "it") h.build_heap(v.begin(), v.end());
             else if (t[1] == "cv") h.build_heap(v);
-            else if (t[1] == "mv") { std::vector<std::uint32_t> w = v; h.build_heap(std::move(w)); }
+            else if (t[1] == "mv") { std::vector<K> w = v; h.build_heap(std::move(w)); }
             else { vh::answer("bad-op"); return; }
-            ref = std::multiset<unsigned>(v.begin(), v.end());
+            ref = nr;
         }
         else if ((o == "setp" || o == "reprio") && t.size() == 2) {
             std::vector<std::pair<unsigned, long long>> kp;
@@ -347,7 +434,10 @@ static std::string show_wide(wide v) {
 
 template <typename KT, unsigned Radix>
 struct RadixH : IHeap {
-    using H = tlx::RadixHeapPair<KT, std::uint32_t, Radix>;
+    // the data payload is move-sensitive: redistribution moves the elements between buckets
+    using MPay = MKey;
+    using H = tlx::RadixHeapPair<KT, MPay, Radix>;
+    static std::string pshow(const MPay& p) { return p.live ? std::to_string(p.k) : std::string("!"); }
     using RK = typename std::make_unsigned<KT>::type;
     H h;
     std::multiset<wide> ref;              // keys
@@ -373,7 +463,7 @@ struct RadixH : IHeap {
             first = false;
             os << i << ':';
             bool f2 = true;
-            for (auto& e : h.buckets_data_[i]) { if (!f2) os << ','; f2 = false; os << show_wide(static_cast<wide>(e.first)) << '/' << e.second; }
+            for (auto& e : h.buckets_data_[i]) { if (!f2) os << ','; f2 = false; os << show_wide(static_cast<wide>(e.first)) << '/' << pshow(e.second); }
         }
         if (first) os << '-';
         os << " ; m=";
@@ -398,6 +488,7 @@ struct RadixH : IHeap {
     }
 
     void check(const std::string& line) {
+        drain_move_errors("radix", line);
         if (h.size() != ref.size()) vh::viol("radix size " + std::to_string(h.size()) + " != reference " + std::to_string(ref.size()) + " after " + line);
         if (h.empty() != ref.empty()) vh::viol("radix empty() wrong after " + line);
         std::multiset<wide> got;
@@ -405,11 +496,11 @@ struct RadixH : IHeap {
         for (auto& b : h.buckets_data_)
             for (auto& e : b) {
                 got.insert(static_cast<wide>(e.first));
-                auto it = pay.find(e.second);
+                auto it = e.second.live ? pay.find(e.second.k) : pay.end();
                 if (it == pay.end() || it->second != static_cast<wide>(e.first)) payload_ok = false;
             }
         if (got != ref) vh::viol("radix stored multiset differs from reference after " + line);
-        else if (!payload_ok) vh::viol("radix stored element has a wrong payload after " + line);
+        else if (!payload_ok) vh::viol("radix stored element has a wrong or moved-from payload after " + line);
         if (!ref.empty() && h.size() != 0) {
             wide pk = static_cast<wide>(h.peak_top_key());
             if (pk != *ref.begin()) vh::viol("radix peak_top_key " + show_wide(pk) + " != minimum " + show_wide(*ref.begin()) + " after " + line);
@@ -421,7 +512,7 @@ struct RadixH : IHeap {
         std::string ret = "ok";
         const wide lo = static_cast<wide>(std::numeric_limits<KT>::min());
         const wide hi = static_cast<wide>(std::numeric_limits<KT>::max());
-        if ((o == "push" || o == "emplace" || o == "getb") && t.size() == 2) {
+        if ((o == "push" || o == "emplace" || o == "getb" || o == "pushb" || o == "emplaceb") && t.size() == 2) {
             wide k;
             if (!parse_wide(t[1], k) || k < lo || k > hi) { vh::answer("bad-op"); return; }
             // monotonicity: no key below the most recently reported minimum (DESIGN §5)
@@ -430,7 +521,16 @@ struct RadixH : IHeap {
             if (o == "getb") ret = std::to_string(h.get_bucket_key(key));
             else {
                 std::uint32_t p = next_payload++;
-                size_t idx = (o == "push") ? h.push(std::make_pair(key, p)) : h.emplace(key, key, p);
+                size_t idx;
+                if (o == "push") idx = h.push(std::make_pair(key, MPay(p)));
+                else if (o == "emplace") idx = h.emplace(key, key, MPay(p));
+                else {
+                    // the hint overloads, with the bucket index the API documents: get_bucket / get_bucket_key
+                    std::pair<KT, MPay> val(key, MPay(p));
+                    idx = (p % 2) ? h.get_bucket(val) : h.get_bucket_key(key);
+                    if (o == "pushb") h.push_to_bucket(idx, val);
+                    else h.emplace_in_bucket(idx, key, MPay(p));
+                }
                 ret = std::to_string(idx);
                 ref.insert(k);
                 pay[p] = k;
@@ -442,7 +542,7 @@ struct RadixH : IHeap {
             if (o == "peak") ret = show_wide(static_cast<wide>(h.peak_top_key()));
             else if (o == "top") {
                 const auto& e = h.top();
-                ret = show_wide(static_cast<wide>(e.first)) + "/" + std::to_string(e.second);
+                ret = show_wide(static_cast<wide>(e.first)) + "/" + pshow(e.second);
                 if (static_cast<wide>(e.first) != mn) vh::viol("radix top " + show_wide(static_cast<wide>(e.first)) + " != minimum " + show_wide(mn) + " after " + line);
                 has_frontier = true; frontier = mn;
             }
@@ -451,7 +551,7 @@ struct RadixH : IHeap {
                 // which element went away is determined in check() through the stored multiset
                 std::multiset<wide> got;
                 std::set<std::uint32_t> live;
-                for (auto& b : h.buckets_data_) for (auto& e : b) { got.insert(static_cast<wide>(e.first)); live.insert(e.second); }
+                for (auto& b : h.buckets_data_) for (auto& e : b) { got.insert(static_cast<wide>(e.first)); if (e.second.live) live.insert(e.second.k); }
                 std::multiset<wide> want = ref;
                 want.erase(want.begin());
                 if (got != want) vh::viol("radix pop did not remove exactly one minimum (" + show_wide(mn) + ") after " + line);
@@ -468,16 +568,38 @@ struct RadixH : IHeap {
                 for (auto& e : ex) {
                     if (!first) os << ',';
                     first = false;
-                    os << show_wide(static_cast<wide>(e.first)) << '/' << e.second;
+                    os << show_wide(static_cast<wide>(e.first)) << '/' << pshow(e.second);
                     if (static_cast<wide>(e.first) != mn) bad = true;
                     auto it = ref.find(static_cast<wide>(e.first));
                     if (it == ref.end()) bad = true; else ref.erase(it);
-                    pay.erase(e.second);
+                    if (e.second.live) pay.erase(e.second.k); else bad = true;
                 }
                 if (bad) vh::viol("radix swap_top_bucket returned an element that is not a minimum (" + show_wide(mn) + ") or nothing after " + line);
                 ret = first ? "-" : os.str();
                 has_frontier = true; frontier = mn;
             }
+        }
+        else if (o == "drain") {
+            // top() + pop() until empty: the keys must come out in non-decreasing order
+            std::ostringstream os;
+            bool first = true, bad = false;
+            std::multiset<wide> before = ref, out;
+            size_t guard = ref.size() + 1;
+            while (h.size() != 0 && guard-- > 0) {
+                const auto& e = h.top();
+                wide k = static_cast<wide>(e.first);
+                if (!first) os << ',';
+                first = false;
+                os << show_wide(k) << '/' << pshow(e.second);
+                if (!out.empty() && k < *out.rbegin()) bad = true;
+                if (!e.second.live) bad = true;
+                out.insert(k);
+                has_frontier = true; frontier = k;
+                h.pop();
+            }
+            if (bad || out != before) vh::viol("radix drain is not the stored multiset in non-decreasing order after " + line);
+            ref.clear(); pay.clear();
+            ret = first ? "-" : os.str();
         }
         else if (o == "size") ret = std::to_string(h.size());
         else if (o == "empty") ret = h.empty() ? "1" : "0";
@@ -497,6 +619,9 @@ static IHeap* make_arity(unsigned a) {
 }
 template <unsigned A> using AddrU32 = AddrH<std::uint32_t, A>;
 template <unsigned A> using AddrU8 = AddrH<std::uint8_t, A>;
+template <unsigned A> using DaryU32 = DaryH<std::uint32_t, A>;
+template <unsigned A> using DaryMK = DaryH<MKey, A>;
+template <unsigned A> using DaryStr = DaryH<std::string, A>;
 
 template <typename KT>
 static IHeap* make_radix(unsigned r) {
@@ -512,9 +637,14 @@ static IHeap* make_radix(unsigned r) {
 
 static IHeap* configure(const std::vector<std::string>& t) {
     if (t.size() < 3) return nullptr;
-    if (t[1] == "dary" && t.size() == 4) {
+    if (t[1] == "dary" && (t.size() == 4 || t.size() == 5)) {
         g_rev = t[3] == "1";
-        return make_arity<DaryH, 1>(static_cast<unsigned>(std::stoul(t[2])));
+        unsigned a = static_cast<unsigned>(std::stoul(t[2]));
+        std::string kt = t.size() == 5 ? t[4] : "u32";
+        if (kt == "u32") return make_arity<DaryU32, 1>(a);
+        if (kt == "mk") return make_arity<DaryMK, 1>(a);      // move-sensitive key type
+        if (kt == "str") return make_arity<DaryStr, 1>(a);    // std::string keys
+        return nullptr;
     }
     if (t[1] == "addr" && t.size() == 5) {
         g_rev = t[3] == "1";
@@ -563,6 +693,7 @@ int main() {
             cur.reset();
             for (unsigned k = 0; k < U; ++k) g_prio[k] = k;
             g_rev = false;
+            g_move_errors.clear();
             vh::answer("case");
             continue;
         }
